@@ -83,7 +83,7 @@ def synthetic(rng, infeasible=False):
 
 def run_case(rng, tier, case):
     mode = gen.pick(rng, ['portfolio', 'portfolio', 'portfolio', 'synthetic', 'synthetic', 'synthetic', 'synthetic', 'infeasible', 'portfolio_infeasible', 'split', 'split',
-                          'repeated', 'repeated', 'scaled'])
+                          'repeated', 'repeated', 'scaled', 'robust'])
     case.feature('mode:' + mode)
     snap0 = None; scaled = False
     with attach.recording() as rec:
@@ -105,6 +105,23 @@ def run_case(rng, tier, case):
             r = flow.run_portfolio(spec, do_extract=False, rec=rec)
             if not r.ok:
                 case.reject(flow.describe_error(r))
+        elif mode == 'robust':
+            # optimize(target='robust', samples=cost samples of other price scenarios): the returned vector is judged against the assembled problem,
+            # the reported value against minus (the problem's own) cost times that vector
+            from ..spec import build
+            spec = gen.gen_lp_portfolio(rng, grid_kw={'steps': (4, 16)}, n_assets=(1, 4), n_nodes=(1, 2))
+            spec = gen.strip_private(spec)
+            case.key = env.spec_key(spec); case.sample = dict(gen.abbreviate(spec), target='robust'); case.spec = spec
+            try:
+                with env.quiet():
+                    b = build(spec)
+                    T_ = b.timegrid.T
+                    scen = [{k: np.asarray(v, float) for k, v in gen.gen_prices(rng, T_, sorted(spec['prices'])).items()} for _ in range(int(rng.integers(1, 4)))]
+                    cs = b.portfolio.create_cost_samples(scen, b.timegrid)
+                    op = b.portfolio.setup_optim_problem(b.prices, b.timegrid)
+                    op.optimize(target='robust', samples=cs)
+            except Exception as e:
+                case.reject('robust run raised %s: %s' % (type(e).__name__, str(e)[:150]))
         elif mode == 'repeated':
             # several optimize calls on the SAME problem object (relaxed first, other solvers, ...): every return is judged against the problem as assembled
             from ..canon import Snap
